@@ -46,6 +46,7 @@ type Options struct {
 	NewsDelimiter         string // config.yaml NewsDelimiter: the post template ("" = default)
 	ProductionPump        bool   // use the production processOutbox (never terminates: only outside bubbles)
 	Keepalive             bool   // run the production idle/keep-alive handler (10 s ticker) for the life of the world
+	RootSpelling          int    // how the operator spelled the file root in the configuration (SpellRoot); 0 = canonical
 }
 
 type World struct {
@@ -212,6 +213,26 @@ func New(base string, opt Options) (*World, error) {
 	return w, nil
 }
 
+// SpellRoot returns another spelling of the same directory, as an operator may write it into config.yaml or an
+// account file: 1 trailing slash, 2 "/./" before the last element, 3 doubled slash, 4 a detour through "..".
+func SpellRoot(root string, n int) string {
+	dir, base := filepath.Dir(root), filepath.Base(root)
+	switch n {
+	case 1:
+		return root + "/"
+	case 2:
+		return dir + "/./" + base
+	case 3:
+		return dir + "//" + base
+	case 4:
+		return dir + "/" + base + "/../" + base
+	}
+	return root
+}
+
+// RootSpelling is the spelling variant this world's configuration uses for file roots.
+func (w *World) RootSpelling() int { return w.opt.RootSpelling }
+
 func (w *World) build() error {
 	w.Log = &LogSink{}
 	ignore := w.opt.IgnoreFiles
@@ -224,7 +245,7 @@ func (w *World) build() error {
 	}
 	srv, err := hotline.NewServer(
 		hotline.WithLogger(slog.New(w.Log)),
-		hotline.WithConfig(hotline.Config{Name: name, Description: "d", FileRoot: w.FileRoot,
+		hotline.WithConfig(hotline.Config{Name: name, Description: "d", FileRoot: SpellRoot(w.FileRoot, w.opt.RootSpelling),
 			PreserveResourceForks: w.opt.PreserveResourceForks, IgnoreFiles: ignore, BannerFile: w.opt.BannerFile,
 			NewsDateFormat: w.opt.NewsDateFormat, NewsDelimiter: w.opt.NewsDelimiter}),
 	)
